@@ -265,7 +265,9 @@ impl<'a, T: AsRef<str>> Tokenizer<'a, T> {
         }
 
         if let Some(pos) = latest_pos {
-            if let Ok(number) = digits.parse::<f64>() {
+            // A numeral too large for an f64 parses as infinity, which we can neither
+            // compute with sensibly nor list again as a numeral, so reject it.
+            if let Some(number) = digits.parse::<f64>().ok().filter(|n| n.is_finite()) {
                 self.index += pos;
                 Some(Ok(Token::NumericLiteral(number)))
             } else {
